@@ -31,6 +31,8 @@ PROPS['C11'] = dict(
          'exhaustive: every (row partition, column partition) pair, empty ranks included, of integer-valued matrices with n,k <= 4 (quick) / <= 6 (thorough; quick takes a 1-in-7 sample of the pairs for sizes 5-6) on 1-4 ranks, '
          'each pair with a fresh random pattern. random: n,k,m <= 60, four partition styles (balanced, random cuts, forced empty ranks, everything on one rank), 60 % integer-valued (exact oracle) and 40 % real-valued (forward bound). '
          'A case is non-trivial when the operands store at least one entry; distinct = distinct (sub-check, descriptor) hash; one exhaustive case covers one row partition with all its column partitions.',
+    # oracle history: 'power*:finite' (power-method estimate finite and >= 0) was dropped -- stricter than the property, which only
+    # asks for rank-identical values; it fired on a 2x2 zero-row-sum matrix with one row per rank (NaN on every rank).
     exhaustive_note='all (row partition, column partition) pairs for global sizes <= 4 (quick) / <= 6 (thorough) on 1..4 ranks, sub-check "exhaustive"',
     min_nontrivial=dict(quick=300, thorough=1500),
     require_obs=dict(quick=['partitions_checked', 'delays_injected', 'cases_with_empty_ranks'], thorough=['partitions_checked', 'delays_injected', 'cases_with_empty_ranks']),
